@@ -339,6 +339,7 @@ def consider_line():
             # ---- C13
             "advancing_line_has_no_effect": "implies(offered() and old(self._advance) > 0, self._advance == old(self._advance) - 1 and "
                                             "self.g_matches_calls == old(self.g_matches_calls) and self.match_count == old(self.match_count) and result == cwnm())",
+            "a_line_that_is_not_offered_does_not_use_up_the_advance": "implies(not offered() and not blank_last(), self._advance == old(self._advance))",
             "blank_last_line_fires_lasts_only": "implies(blank_last(), result == False and self._freeze_path == True and "
                                                 "self.g_matches_calls == old(self.g_matches_calls) + 1 and self.scan_count == old(self.scan_count))",
             # ---- C01 / C15
@@ -363,11 +364,12 @@ def consider_line():
         native={"patches": {"csvpath.csvpath.CsvPath.matches": P_CSVPATH_MATCHES},
                 "defaults": {"Scanner": {"csvpath": None}, "CsvPath": {"metadata": {}}}},
         property_clauses={"offers_exactly_the_denoted_nonblank_lines": "C02,C03", "no_match_attempt_on_other_lines": "C02",
-                          "stops_after_last_denoted_line": "C02", "advancing_line_has_no_effect": "C13", "blank_last_line_fires_lasts_only": "C13",
-                          "verdict": "C01,C15", "result_is_bool": "C01", "match_count_exactly_once_per_matching_line": "C03",
-                          "match_count_not_raised_here_otherwise": "C03", "validity_monotone": "C04"},
+                          "stops_after_last_denoted_line": "C02", "advancing_line_has_no_effect": "C13", "a_line_that_is_not_offered_does_not_use_up_the_advance": "C13", "blank_last_line_fires_lasts_only": "C13",
+                          "verdict": "C01,C15", "result_is_bool": "C01", "match_count_exactly_once_per_matching_line": "C03,C15",
+                          "match_count_not_raised_here_otherwise": "C03,C15", "validity_monotone": "C04"},
         doc={"offers_exactly_the_denoted_nonblank_lines": "C02: 'The lines offered to the match part are exactly those the scan part denotes ... blank records are never offered'; C03: 'scan_count equals the number of lines offered'",
              "advancing_line_has_no_effect": "C13: 'advance(n) makes the next n scanned lines pass without matching, counting as matches or causing any side effect'",
+             "a_line_that_is_not_offered_does_not_use_up_the_advance": "C13: 'advance(n) makes the next n SCANNED lines pass' -- lines outside the scan window and blank records do not count",
              "blank_last_line_fires_lasts_only": "C13: 'last() ... still fires, without returning a line, when the file ends in a blank line'",
              "verdict": "C01 / C15: 'return-mode no-matches returns exactly the scanned lines that the default mode does not'",
              "match_count_exactly_once_per_matching_line": "C03: 'match_count the number of lines that matched'"},
